@@ -24,6 +24,22 @@ int main(void) {
             unsigned char* out = (unsigned char*)malloc(cap ? cap : 1);
             size_t r = d ? ZSTD_decompress_usingDict(dctx, out, cap, in, n, d, dn) : ZSTD_decompressDCtx(dctx, out, cap, in, n);
             zv_result(r, out); free(in); free(out); free(d);
+        } else if (!strcmp(op, "decdp")) {
+            /* decdp <id=val,...> <mode o|s> <cap> <hex> : decoding with decompression parameters set (ZSTD_d_forceIgnoreChecksum = 1002, ZSTD_d_windowLogMax = 100,
+             * ZSTD_d_stableOutBuffer = 1001, ZSTD_d_maxBlockSize = 1005, ...): o = ZSTD_decompressDCtx, s = ZSTD_decompressStream fed in 1000-byte pieces; exact-size buffers */
+            char* ps = strtok(NULL, " "); char* mode = strtok(NULL, " "); size_t cap = (size_t)strtoull(strtok(NULL, " "), NULL, 10), n; unsigned char* in = zv_unhex(strtok(NULL, " "), &n);
+            unsigned char* out = (unsigned char*)malloc(cap ? cap : 1); size_t r = 0; char* save = NULL; char* kv;
+            ZSTD_DCtx_reset(dctx, ZSTD_reset_session_and_parameters);
+            for (kv = strtok_r(ps, ",", &save); kv && !ZSTD_isError(r); kv = strtok_r(NULL, ",", &save)) { int id, val; if (sscanf(kv, "%d=%d", &id, &val) == 2) r = ZSTD_DCtx_setParameter(dctx, (ZSTD_dParameter)id, val); }
+            if (!ZSTD_isError(r)) {
+                if (mode[0] == 'o') r = ZSTD_decompressDCtx(dctx, out, cap, in, n);
+                else { ZSTD_outBuffer ob = { out, cap, 0 }; size_t pos = 0; int guard = 0; r = 1;
+                    while (pos < n && !ZSTD_isError(r) && guard++ < 100000) { size_t chunk = n - pos < 1000 ? n - pos : 1000; unsigned char* piece = (unsigned char*)malloc(chunk); ZSTD_inBuffer ib = { piece, chunk, 0 }; memcpy(piece, in + pos, chunk);
+                        r = ZSTD_decompressStream(dctx, &ob, &ib); pos += ib.pos; free(piece); if (!ZSTD_isError(r) && ib.pos == 0 && ob.pos == ob.size) break; }
+                    if (!ZSTD_isError(r)) r = (r == 0 && pos == n) ? ob.pos : (size_t)-ZSTD_error_srcSize_wrong; }
+            }
+            ZSTD_DCtx_reset(dctx, ZSTD_reset_session_and_parameters);
+            zv_result(r, out); free(in); free(out);
         } else if (!strcmp(op, "decf")) {
             int fmt = atoi(strtok(NULL, " ")); size_t cap = (size_t)strtoull(strtok(NULL, " "), NULL, 10), n; unsigned char* in = zv_unhex(strtok(NULL, " "), &n);
             unsigned char* out = (unsigned char*)malloc(cap ? cap : 1); size_t r;
@@ -126,7 +142,9 @@ int main(void) {
             for (t = strtok_r(ins, ",", &sv); t && ni < 64; t = strtok_r(NULL, ",", &sv)) ic[ni++] = (size_t)strtoull(t, NULL, 10);
             for (t = strtok_r(outs, ",", &sv); t && no < 64; t = strtok_r(NULL, ",", &sv)) oc[no++] = (size_t)strtoull(t, NULL, 10);
             ZSTD_CCtx_reset(cctx, ZSTD_reset_session_and_parameters);
-            for (kv = strtok_r(ps, ",", &save); kv && !ZSTD_isError(r); kv = strtok_r(NULL, ",", &save)) { int id, val; if (sscanf(kv, "%d=%d", &id, &val) == 2) r = ZSTD_CCtx_setParameter(cctx, (ZSTD_cParameter)id, val); }
+            for (kv = strtok_r(ps, ",", &save); kv && !ZSTD_isError(r); kv = strtok_r(NULL, ",", &save)) { int id, val; if (sscanf(kv, "%d=%d", &id, &val) == 2) {
+                if (id == 9000) { if (val) r = ZSTD_CCtx_setPledgedSrcSize(cctx, n); }      /* pseudo-parameter: pledge the exact source size (content size known to the decoder) */
+                else r = ZSTD_CCtx_setParameter(cctx, (ZSTD_cParameter)id, val); } }
             if (d && !ZSTD_isError(r)) r = ZSTD_CCtx_loadDictionary(cctx, d, dn);
             if (tr) printf("trace");
             while (!ZSTD_isError(r) && !ended && calls < 4000000) {
